@@ -51,7 +51,12 @@ MANIFEST = dict(
          "__dict__ / __slots__) built at extraction time - the model's module registry resolves every probe and "
          "base for every op exactly as a copy of the real one answered, and every probe is served like its base "
          "(obj-style keys for a __dict__ instance whose base has no keys handler; str subclasses are iterable) "
-         "(c13_builtin_subclasses, decide +kernel on regenerated facts). Answers are compared IN FULL: a lookup "
+         "(c13_builtin_subclasses, decide +kernel on regenerated facts). Re-registration (63b9f8a): the type keeps "
+         "its subtree and moves to the end of its level (c13_reregistration_moves_to_end; the insertion as it was, "
+         "regFuzzyOld, nested the type under itself one level per re-registration: c13_reregistration_nests, F42; "
+         "fact c13FuzzyReregisterMoves; stream of 1100-1500 re-registrations then a lookup of an unregistered "
+         "subclass). An explicitly registered False is kept by later registrations that do not name the op and "
+         "serves the subclasses as the nearest registration (c13_false_is_a_registration; False-handler stream). Answers are compared IN FULL: a lookup "
          "yields answerOf(un-memoised handler, raise_exc) - UnregisteredTarget exactly when raise_exc and a returned "
          "False exactly when not - whatever the memo holds (c13_answer_in_full, c13_lookup_pure on full answers; "
          "counter-example getHandlerHitReturns = the code before 8b51f6e); ties among incomparable virtual matches "
@@ -107,7 +112,9 @@ RULE = ('type-directed: a class hierarchy is drawn from the families chain / dia
         'history, never by memory addresses - every case running register_op is replayed with its classes '
         'elsewhere in memory); a False-then-raise stream (raise_exc=False lookup that finds nothing, then the same '
         'lookup raising through get_handler and through real glom, then the registration that provides a handler); '
-        'an exact-flip stream (the same type two or three times with alternating '
+        'a False-handler stream (a type registered with op=False, re-registered for other ops / with no keyword, '
+        'bases and virtual supertypes with real handlers before and after it: the False stays and serves the '
+        'subclasses as the nearest registration); an exact-flip stream (the same type two or three times with alternating '
         'exact, with a new handler / False / no keyword, on a type with real or virtual subclasses, a lookup of '
         'every class after every call); a failing-lookup stream (bare registry / op not registered yet / type '
         'without a handler -> the registration that makes the lookup succeed, nothing in between -> the same '
@@ -1431,16 +1438,16 @@ def false_then_raise_stream(rng, n):
 
 
 # ---------------------------------------------------------------------------------------------
-# GATED INPUT CLASS (switch): the same type registered again and again without exact=True.
-# Genuine defect of glom (reported to the lead, not yet repaired in /repo): `_register_fuzzy_type`
+# INPUT CLASS (switch, ON since the repair 63b9f8a): the same type registered again and again without
+# exact=True.  Defect of glom as it was (finding F42): `_register_fuzzy_type`
 # treats an existing key as "a subclass of the new type" (`issubclass(T, T)`), pops it and files it
 # below a *new* key of the same type — every re-registration nests the type one level deeper under
 # itself (`{A: {A: {A: …}}}`; the default registry already holds `dict -> dict -> OrderedDict ->
 # OrderedDict`).  `_get_matching_types` recurses once per level, so after about a thousand
 # re-registrations of one type every lookup of an unregistered subclass raises RecursionError.
 # The model mirrors the nesting (Props/C13.lean, `c13_reregistration_nests`); Lean has no
-# recursion limit, so only this stream can observe the failure.  Set to True once the repair is in.
-DEEP_REREGISTRATION = False
+# recursion limit, so only this stream can observe the failure.
+DEEP_REREGISTRATION = True
 
 
 def deep_reregistration_stream(rng, n):
@@ -1452,6 +1459,52 @@ def deep_reregistration_stream(rng, n):
         acts = [{'a': 'register', 'reg': 0, 'ty': 'A', 'exact': False, 'kw': [[op, 'h:A']]} for _k in range(times)]
         acts.append({'a': 'lookup', 'reg': 0, 'op': op, 'ty': 'B', 'raise': True})
         acts.append({'a': 'glom', 'reg': 0, 'spec': op, 'ty': 'B'})
+        yield {'classes': specs, 'kinds': [kind], 'actions': acts}
+
+
+def false_handler_stream(rng, n):
+    """an explicitly registered `False` ("this type does not support the op") is a registration like
+    any other: (a) it stays when the same type is registered again for *another* op or with no keyword
+    at all (the handler a type already has is kept, also when it is False - never re-discovered);
+    (b) it serves the subclasses: the nearest registered type wins although its handler is False and a
+    farther base (or an unrelated matching type) has a real one.  A type of the hierarchy gets
+    `op=False`, its bases / virtual supertypes get real handlers before or after it, the type is
+    re-registered for other ops, and every class is looked up after every step (raise_exc both ways
+    and through real glom calls)"""
+    for _ in range(n):
+        specs = rng.choice([h_chain, h_chain, h_mixin, h_diamond, h_builtin, h_virtual, h_virtual_first])(rng)
+        if not valid_classes(specs):
+            continue
+        names = [c['name'] for c in specs]
+        kind = rng.choice(['registry:0', 'registry:1', 'glommer:1', 'module', 'glommer:0'])
+        op = rng.choice(['get', 'iterate', 'keys', 'assign', 'delete'])
+        others = [o for o in OPS if o != op]
+        t = rng.choice(names)
+        tagn = [0]
+
+        def tag():
+            tagn[0] += 1
+            return 'h:%d' % tagn[0]
+
+        def looks():
+            return [_same_lookup(rng, op, q) for q in names]
+        acts = []
+        rest = [x for x in names if x != t]
+        before = rng.sample(rest, rng.randint(0, len(rest)))
+        for x in before:
+            acts.append({'a': 'register', 'reg': 0, 'ty': x, 'exact': rng.random() < 0.2, 'kw': [[op, tag()]]})
+        acts.append({'a': 'register', 'reg': 0, 'ty': t, 'exact': rng.random() < 0.2, 'exact_given': True,
+                     'kw': [[op, None]] + ([[rng.choice(others), tag()]] if rng.random() < 0.3 else [])})
+        acts += looks()
+        for _k in range(rng.choice([1, 2])):
+            m = rng.random()
+            kw = [] if m < 0.4 else [[rng.choice(others), tag() if rng.random() < 0.8 else None]]
+            acts.append({'a': 'register', 'reg': 0, 'ty': t, 'exact': rng.random() < 0.3,
+                         'exact_given': rng.random() < 0.5, 'kw': kw})
+            acts += looks()
+        for x in [y for y in rest if y not in before][:2]:
+            acts.append({'a': 'register', 'reg': 0, 'ty': x, 'exact': False, 'kw': [[op, tag()]]})
+            acts += looks()
         yield {'classes': specs, 'kinds': [kind], 'actions': acts}
 
 
@@ -1521,6 +1574,7 @@ def generate(rng, tier, scale, **focus):
     yield from fail_then_register_stream(rng, (150 if tier == 'quick' else 3000) * scale)
     yield from rejected_stream(rng, (200 if tier == 'quick' else 4000) * scale)
     yield from exact_flip_stream(rng, (120 if tier == 'quick' else 3000) * scale)
+    yield from false_handler_stream(rng, (100 if tier == 'quick' else 2500) * scale)
     yield from tie_regop_stream(rng, (120 if tier == 'quick' else 3000) * scale)
     yield from false_then_raise_stream(rng, (80 if tier == 'quick' else 2000) * scale)
     if DEEP_REREGISTRATION:
